@@ -450,7 +450,10 @@ const char *g_libc_static_names[] = {"asctime", "ctime", "localtime", "gmtime", 
                                      "umask", "setenv", "putenv", "unsetenv", "chdir", "fesetround", "signal", "sigaction", "srand",
                                      // more libc facilities with static result buffers / hidden generator state
                                      "ecvt", "fcvt", "random", "srandom", "drand48", "lrand48", "mrand48", "srand48", "strsignal", "inet_ntoa",
-                                     "ttyname", "getlogin", "l64a", nullptr};
+                                     "ttyname", "getlogin", "l64a",
+                                     // multibyte -> wide conversion through libc's hidden conversion state (a partial character
+                                     // left by one call is continued by the next, whichever thread makes it)
+                                     "mbtowc/mblen (hidden conversion state)", "mbrtowc/mbrlen/mbsrtowcs/mbsnrtowcs(NULL state)", nullptr};
 static void libc_probe(int idx) {
     Task *t = t_self;
     if (t && t->op) {
@@ -832,8 +835,12 @@ struct tm *__wrap_gmtime(const time_t *t) { libc_probe(3); struct tm *r = gmtime
 char *__wrap_strtok(char *s, const char *d) { libc_probe(4); char *r = strtok(s, d); on_event(); return r; }
 char *__wrap_tmpnam(char *s) { if (!s) libc_probe(5); else on_event(); char *r = tmpnam(s); on_event(); return r; }
 int __wrap_wctomb(char *s, wchar_t wc) { on_event(); int r = wctomb(s, wc); on_event(); return r; }
-int __wrap_mbtowc(wchar_t *pwc, const char *s, size_t n) { on_event(); int r = mbtowc(pwc, s, n); on_event(); return r; }
-int __wrap_mblen(const char *s, size_t n) { on_event(); int r = mblen(s, n); on_event(); return r; }
+int __wrap_mbtowc(wchar_t *pwc, const char *s, size_t n) { if (s) libc_probe(30); else on_event(); int r = mbtowc(pwc, s, n); on_event(); return r; }
+int __wrap_mblen(const char *s, size_t n) { if (s) libc_probe(30); else on_event(); int r = mblen(s, n); on_event(); return r; }
+size_t __wrap_mbrtowc(wchar_t *pwc, const char *s, size_t n, mbstate_t *ps) { if (!ps) libc_probe(31); else on_event(); size_t r = mbrtowc(pwc, s, n, ps); on_event(); return r; }
+size_t __wrap_mbrlen(const char *s, size_t n, mbstate_t *ps) { if (!ps) libc_probe(31); else on_event(); size_t r = mbrlen(s, n, ps); on_event(); return r; }
+size_t __wrap_mbsrtowcs(wchar_t *d, const char **src, size_t len, mbstate_t *ps) { if (!ps) libc_probe(31); else on_event(); size_t r = mbsrtowcs(d, src, len, ps); on_event(); return r; }
+size_t __wrap_mbsnrtowcs(wchar_t *d, const char **src, size_t nms, size_t len, mbstate_t *ps) { if (!ps) libc_probe(31); else on_event(); size_t r = mbsnrtowcs(d, src, nms, len, ps); on_event(); return r; }
 size_t __wrap_wcrtomb(char *s, wchar_t wc, mbstate_t *ps) { on_event(); size_t r = wcrtomb(s, wc, ps); on_event(); return r; }
 char *__wrap_strerror(int e) { on_event(); char *r = strerror(e); on_event(); return r; }
 int __wrap_rand(void) { libc_probe(6); return rand(); }
